@@ -5,6 +5,8 @@ package main
 // cache, the z3 pipe, and one-shot fall-back solvers.
 
 import (
+	"fmt"
+	"os"
 	"sort"
 	"strconv"
 	"strings"
@@ -133,6 +135,16 @@ func (in *Interp) queryFocus(extra, focus []*Term, fallback time.Duration) (Resu
 }
 
 func (in *Interp) query(extra []*Term, fallback time.Duration) (Result, *Model) {
+	// never let one query run past the case deadline
+	if !in.deadline.IsZero() {
+		remain := time.Until(in.deadline)
+		if remain < 2*time.Second {
+			remain = 2 * time.Second
+		}
+		if fallback > remain {
+			fallback = remain
+		}
+	}
 	for _, e := range extra {
 		if e == in.tb.False {
 			return Unsat, nil
@@ -154,6 +166,9 @@ func (in *Interp) query(extra []*Term, fallback time.Duration) (Result, *Model) 
 			in.tb.varTerm[v.id] = v
 		}
 	}
+	if in.inPath && !in.deadline.IsZero() && time.Now().After(in.deadline) {
+		panic(budgetErr{"time budget exhausted inside a path"})
+	}
 	key := queryKey(cons, extra)
 	for _, f := range in.focus {
 		key += "f" + strconv.Itoa(f.id)
@@ -170,9 +185,43 @@ func (in *Interp) query(extra []*Term, fallback time.Duration) (Result, *Model) 
 		}
 		sort.Slice(vars, func(i, j int) bool { return vars[i].id < vars[j].id })
 		all := append(append([]*Term(nil), cons...), extra...)
-		res, vals := in.solver.CheckSet(all, vars)
+		var res Result = Unknown
+		var vals map[string]uint64
+		hard := in.hardArith(all)
+		if hard {
+			// cheap attempt on the bit-vector pipe first (small ranges bit-blast instantly)
+			res, vals = in.solver.CheckSetTimeout(all, vars, 250)
+		}
+		if res == Unknown && hard && os.Getenv("SYMGO_NOINT") == "" {
+			to := fallback
+			if to <= 0 || to > 40*time.Second {
+				to = 40 * time.Second
+			}
+			if r, v, ok := in.solver.CheckInt(in.tb, all, to, in.rng); ok {
+				res, vals = r, v
+			}
+		}
+		if res == Unknown && in.cfg.prefer != "" && hard {
+			res, vals, _ = in.solver.CheckOneShot(all, nil, vars, fallback, in.cfg.prefer)
+		}
+		if res == Unknown {
+			res, vals = in.solver.CheckSet(all, vars)
+		}
 		if res == Unknown && fallback > 0 {
 			res, vals, _ = in.solver.CheckOneShot(all, nil, vars, fallback, "")
+		}
+		if res != Unknown && intDiff {
+			// differential validation of the integer translation against the bit-vector verdict
+			if r2, _, ok := in.solver.CheckInt(in.tb, all, 20*time.Second, in.rng); ok && r2 != res {
+				fmt.Fprintf(os.Stderr, "INT-DIFF DISAGREEMENT: bv=%s int=%s\n", res, r2)
+				in.cs.Inconclusive = append(in.cs.Inconclusive, "integer translation disagrees with the bit-vector verdict")
+				if d := os.Getenv("SYMGO_KEEPQ"); d != "" {
+					os.MkdirAll(d, 0o755)
+					os.WriteFile(fmt.Sprintf("%s/intdiff-%d.smt2", d, time.Now().UnixNano()), []byte(Script(all, nil, nil, "")), 0o644)
+				}
+			} else if ok {
+				in.intDiffOK++
+			}
 		}
 		ent = cacheEntry{res, vals}
 		if res != Unknown {
@@ -193,3 +242,33 @@ func (in *Interp) query(extra []*Term, fallback time.Duration) (Result, *Model) 
 	}
 	return Sat, NewModel(vals)
 }
+
+// hardArith reports whether the terms contain wide multiplication/division
+// (the kernels bit-blasting stalls on).
+func (in *Interp) hardArith(ts []*Term) bool {
+	seen := map[int]bool{}
+	var stack []*Term
+	stack = append(stack, ts...)
+	for len(stack) > 0 {
+		t := stack[len(stack)-1]
+		stack = stack[:len(stack)-1]
+		if t == nil || seen[t.id] {
+			continue
+		}
+		seen[t.id] = true
+		switch t.op {
+		case OpUDiv, OpSDiv, OpURem, OpSRem:
+			if t.w >= 32 {
+				return true
+			}
+		case OpMul:
+			if t.w >= 32 && !t.a.IsConst() && !t.b.IsConst() {
+				return true
+			}
+		}
+		stack = append(stack, t.a, t.b, t.c)
+	}
+	return false
+}
+
+var intDiff = os.Getenv("SYMGO_INTDIFF") != ""
